@@ -363,6 +363,14 @@ def ob_extremal(d, r, form):
             Us = [np.linalg.qr(rng.normal(size=(d, d)) + 1j * rng.normal(size=(d, d)))[0] for _ in range(2)]
             A = [np.sqrt(0.5) * u for u in Us]
             out.append({"A": A, "B": A})
+        # dependency that lives ONLY in the off-diagonal products: A1 = (I+Z)/2, A2 = (I-Z)/2 with the clock matrix Z gives
+        # A1^dagger A2 + A2^dagger A1 = (I - Z^dagger Z)/2 = 0 while the diagonal products are independent of each other;
+        # and the same channel written with the operators in the other order
+        if d >= 3:
+            Z = np.diag(np.exp(2j * np.pi * np.arange(d) / d))
+            A = [(np.eye(d) + Z) / 2, (np.eye(d) - Z) / 2]
+            out.append({"A": A, "B": A})
+            out.append({"A": A[::-1], "B": A[::-1]})
         if d == 2:
             g = 0.3
             W = np.array([[1 + 1j, 1 - 1j], [1 - 1j, 1 + 1j]]) / 2
